@@ -68,6 +68,8 @@ impl Local {
 struct CounterSut {
     int: bool,
     merge: bool,
+    /// all amounts multiplied by this power of two (1 = the plain run; 2^-60 = amounts far below f64::EPSILON)
+    scale: f64,
 }
 
 impl Sut for CounterSut {
@@ -123,17 +125,18 @@ impl Sut for CounterSut {
             match op {
                 COp::Inc(i) => {
                     match locals[*i].as_ref().unwrap() {
+                        Local::F(l) if self.scale != 1.0 => l.inc_by(self.scale),
                         Local::F(l) => l.inc(),
                         Local::I(l) => l.inc(),
                     }
-                    *m_pending[*i].as_mut().unwrap() += 1.0;
+                    *m_pending[*i].as_mut().unwrap() += 1.0 * self.scale;
                 }
                 COp::IncBy(i) => {
                     match locals[*i].as_ref().unwrap() {
-                        Local::F(l) => l.inc_by(2.5),
+                        Local::F(l) => l.inc_by(2.5 * self.scale),
                         Local::I(l) => l.inc_by(2),
                     }
-                    *m_pending[*i].as_mut().unwrap() += if self.int { 2.0 } else { 2.5 };
+                    *m_pending[*i].as_mut().unwrap() += if self.int { 2.0 } else { 2.5 * self.scale };
                 }
                 COp::Flush(i) => {
                     match locals[*i].as_ref().unwrap() {
@@ -165,10 +168,10 @@ impl Sut for CounterSut {
                 }
                 COp::SharedInc => {
                     match &shared {
-                        Shared::F(c) => c.inc_by(16.0),
+                        Shared::F(c) => c.inc_by(16.0 * self.scale),
                         Shared::I(c) => c.inc_by(16),
                     }
-                    m_shared += 16.0;
+                    m_shared += 16.0 * self.scale;
                 }
                 COp::SharedReset => {
                     match &shared {
@@ -625,8 +628,9 @@ fn main() {
         let doc = read_replay(p);
         let model = doc["model"].as_str().unwrap_or("").trim_start_matches("merged:").to_string();
         let rc = match model.as_str() {
-            "local-counter-f64" => replay_cli("C12", p, &doc, &CounterSut { int: false, merge: false }),
-            "local-counter-int" => replay_cli("C12", p, &doc, &CounterSut { int: true, merge: false }),
+            "local-counter-f64" => replay_cli("C12", p, &doc, &CounterSut { int: false, merge: false, scale: 1.0 }),
+            "local-counter-int" => replay_cli("C12", p, &doc, &CounterSut { int: true, merge: false, scale: 1.0 }),
+            "local-counter-f64-tiny" => replay_cli("C12", p, &doc, &CounterSut { int: false, merge: false, scale: (2.0f64).powi(-60) }),
             "local-histogram" => replay_cli("C12", p, &doc, &HistSut { merge: false }),
             "local-counter-vec" => replay_cli("C12", p, &doc, &VecSut { kind: VK::Counter, merge: false }),
             "local-int-counter-vec" => replay_cli("C12", p, &doc, &VecSut { kind: VK::IntCounter, merge: false }),
@@ -641,8 +645,10 @@ fn main() {
     rep.bounds = json!({"depth": depth, "vec_depth": vdepth, "local_handles": SLOTS, "keys": KEYS});
     let t = if thorough { 900 } else { 100 };
     // (1) plain exhaustive enumeration of histories (no state merging)
-    explore(CounterSut { int: false, merge: false }, depth, t, "local-counter-f64", &mut rep);
-    explore(CounterSut { int: true, merge: false }, depth, t, "local-counter-int", &mut rep);
+    explore(CounterSut { int: false, merge: false, scale: 1.0 }, depth, t, "local-counter-f64", &mut rep);
+    explore(CounterSut { int: true, merge: false, scale: 1.0 }, depth, t, "local-counter-int", &mut rep);
+    // the same histories with every amount scaled by 2^-60 (far below f64::EPSILON: "is it zero?" must not be "is it small?")
+    explore(CounterSut { int: false, merge: false, scale: (2.0f64).powi(-60) }, depth - 1, t, "local-counter-f64-tiny", &mut rep);
     explore(HistSut { merge: false }, depth, t, "local-histogram", &mut rep);
     explore(VecSut { kind: VK::Counter, merge: false }, vdepth, t, "local-counter-vec", &mut rep);
     explore(VecSut { kind: VK::IntCounter, merge: false }, vdepth, t, "local-int-counter-vec", &mut rep);
@@ -650,7 +656,7 @@ fn main() {
     // (2) deeper, merging histories with equal ledger state (sound only as far as the
     //     ledger determines the implementation state; reported separately)
     let md = depth + 2;
-    explore(CounterSut { int: false, merge: true }, md, t, "merged:local-counter-f64", &mut rep);
+    explore(CounterSut { int: false, merge: true, scale: 1.0 }, md, t, "merged:local-counter-f64", &mut rep);
     explore(HistSut { merge: true }, md, t, "merged:local-histogram", &mut rep);
     explore(VecSut { kind: VK::IntCounter, merge: true }, md, t, "merged:local-int-counter-vec", &mut rep);
     explore(VecSut { kind: VK::Histogram, merge: true }, md, t, "merged:local-histogram-vec", &mut rep);
